@@ -59,12 +59,16 @@ var (
 	symKey32 = []byte("0123456789abcdef0123456789abcdef")
 	rsaKey   *rsa.PrivateKey
 	ecKey    *ecdsa.PrivateKey
+	ecKey384 *ecdsa.PrivateKey
+	ecKey521 *ecdsa.PrivateKey
 )
 
 func keys() {
 	if rsaKey == nil {
 		rsaKey, _ = rsa.GenerateKey(rand.Reader, 2048)
 		ecKey, _ = ecdsa.GenerateKey(elliptic.P256(), rand.Reader)
+		ecKey384, _ = ecdsa.GenerateKey(elliptic.P384(), rand.Reader)
+		ecKey521, _ = ecdsa.GenerateKey(elliptic.P521(), rand.Reader)
 	}
 }
 
@@ -495,7 +499,7 @@ func targets(c *hl.Ctx) []target {
 		if err != nil {
 			return
 		}
-		for _, k := range []interface{}{symKey32, &rsaKey.PublicKey, &ecKey.PublicKey} {
+		for _, k := range []interface{}{symKey32, &rsaKey.PublicKey, &ecKey.PublicKey, &ecKey384.PublicKey, &ecKey521.PublicKey} {
 			o.Verify(k)
 		}
 		o.FullSerialize()
@@ -506,7 +510,8 @@ func targets(c *hl.Ctx) []target {
 		if err != nil {
 			return
 		}
-		for _, k := range []interface{}{symKey16, symKey32, rsaKey, ecKey} {
+		// every key kind, incl. EC keys on each curve (an epk on another curve than the key must be an error)
+		for _, k := range []interface{}{symKey16, symKey32, rsaKey, ecKey, ecKey384, ecKey521} {
 			o.Decrypt(k)
 		}
 		o.GetAuthData()
@@ -582,6 +587,8 @@ func targets(c *hl.Ctx) []target {
 			encrypted(jose.RSA1_5, jose.A128GCM, &rsaKey.PublicKey, true, nil),
 			encrypted(jose.ECDH_ES, jose.A128GCM, &ecKey.PublicKey, false, nil),
 			encrypted(jose.ECDH_ES_A128KW, jose.A128GCM, &ecKey.PublicKey, true, []byte("aad")),
+			encrypted(jose.ECDH_ES, jose.A128GCM, &ecKey384.PublicKey, false, nil),
+			encrypted(jose.ECDH_ES_A256KW, jose.A256GCM, &ecKey521.PublicKey, true, nil),
 		}
 		s = append(s, jsonSubsets(encrypted(jose.A128KW, jose.A128GCM, symKey16, true, []byte("aad")))...)
 		s = append(s, jsonSubsets(encrypted(jose.A128GCMKW, jose.A128GCM, symKey16, true, nil))...)
